@@ -1111,65 +1111,95 @@ fn gen_link_set(rng: &mut Rng, id: u64) -> (Vec<LinkObj>, Vec<(usize, u64, Strin
     let mips = combo.machine == EM_MIPS;
     let exe_region: u64 = if mips { 0x40_0000 } else { 0x0804_8000 };
     let lib_region: u64 = 0x1000 * rng.range(1, 8);
-    let mk = |rng: &mut Rng, region: u64| -> Vec<Seg> {
+    // text: 8..24 random bytes; data: `dlen` zero bytes (relocation slots live there) + a bss tail
+    let mk = |rng: &mut Rng, region: u64, dlen: u64| -> Vec<Seg> {
         let t = rng.range(8, 24);
-        let d = rng.range(16, 40);
         vec![
             Seg { ptype: PT_LOAD, vaddr: region, filesz: t, memsz: t, flags: 5, content: rand_bytes(rng, t), off: 0, fixed_off: false },
-            Seg { ptype: PT_LOAD, vaddr: region + 0x1000, filesz: d, memsz: d + rng.below(8), flags: 6, content: vec![0; d as usize], off: 0, fixed_off: false },
+            Seg { ptype: PT_LOAD, vaddr: region + 0x1000, filesz: dlen, memsz: dlen + rng.below(8), flags: 6, content: vec![0; dlen as usize], off: 0, fixed_off: false },
         ]
     };
-    let lib_segs = mk(rng, lib_region);
-    let exe_segs = mk(rng, exe_region);
-    // the library exports 2..4 symbols; the executable exports one the library refers to
-    let nlib = rng.range(2, 4);
+    // Every set exports, from the library, one symbol of each type the loader has to export
+    // (NOTYPE, OBJECT, FUNC) in each binding (GLOBAL, WEAK), and from the executable one of each
+    // type; the other object refers to all of them.
+    let lib_segs = mk(rng, lib_region, 80);
+    let exe_segs = mk(rng, exe_region, 96);
+    let place = |rng: &mut Rng, segs: &[Seg], typ: u8| -> (u64, u16) {
+        match typ {
+            2 => (segs[0].vaddr + rng.below(segs[0].memsz), 1),
+            1 => (segs[1].vaddr + 4 * rng.below(4), 2),
+            // untyped: anywhere, including the end of the data segment (_end, __bss_start, _edata)
+            _ => match rng.below(3) {
+                0 => (segs[1].vaddr + segs[1].memsz, 2),
+                1 => (segs[1].vaddr + segs[1].filesz, 2),
+                _ => (segs[0].vaddr + rng.below(segs[0].memsz), 1),
+            },
+        }
+    };
     let mut lib_dyn = Vec::new();
-    for i in 0..nlib {
-        let func = i == 0 || rng.bool();
-        let value = if func { lib_region + rng.below(lib_segs[0].memsz) } else { lib_region + 0x1000 + 4 * rng.below(4) };
-        lib_dyn.push(Sym { name: format!("l{}", i), value, typ: if func { 2 } else { 1 }, bind: if rng.chance(1, 4) { 2 } else { 1 }, shndx: if func { 1 } else { 2 } });
+    for (i, (typ, bind)) in [(0u8, 1u8), (0, 2), (1, 1), (1, 2), (2, 1), (2, 2)].iter().enumerate() {
+        let (value, shndx) = place(rng, &lib_segs, *typ);
+        lib_dyn.push(Sym { name: format!("l{}", i), value, typ: *typ, bind: *bind, shndx });
     }
-    let ex_value = exe_region + rng.below(exe_segs[0].memsz);
-    let exe_export = Sym { name: "e0".into(), value: ex_value, typ: 2, bind: 1, shndx: 1 };
-    let undef = |s: &Sym| Sym { name: s.name.clone(), value: 0, typ: s.typ, bind: s.bind, shndx: 0 };
-    // executable: undefined references to every library symbol + its own export
-    let mut exe_dyn: Vec<Sym> = lib_dyn.iter().map(undef).collect();
-    exe_dyn.push(exe_export.clone());
-    // library: its exports + an undefined reference to the executable's export
+    let mut exe_exports = Vec::new();
+    for (i, (typ, bind)) in [(2u8, 1u8), (0, 1), (1, 2)].iter().enumerate() {
+        let (value, shndx) = place(rng, &exe_segs, *typ);
+        exe_exports.push(Sym { name: format!("e{}", i), value, typ: *typ, bind: *bind, shndx });
+    }
+    // an undefined reference carries the type of its definition or none
+    let mut undef = |s: &Sym| Sym { name: s.name.clone(), value: 0, typ: if rng.bool() { s.typ } else { 0 }, bind: s.bind, shndx: 0 };
+    let mut exe_dyn: Vec<Sym> = lib_dyn.iter().map(&mut undef).collect();
+    exe_dyn.extend(exe_exports.iter().cloned());
     let mut lib_all = lib_dyn.clone();
-    lib_all.push(undef(&exe_export));
+    lib_all.extend(exe_exports.iter().map(&mut undef));
+    // tables are not sorted by kind of symbol
+    for v in [&mut exe_dyn, &mut lib_all] {
+        for i in (1..v.len()).rev() {
+            let j = rng.below(i as u64 + 1) as usize;
+            v.swap(i, j);
+        }
+    }
 
     let mut relocs: Vec<(usize, u64, String)> = Vec::new();
-    let mut exe = Image { combo, etype: 2, entry: exe_region, segs: exe_segs, symtab: vec![exe_export.clone()], dynsym: exe_dyn.clone(), pltrel: Vec::new(), dynrel: Vec::new(), needed: vec!["libx.so".into()], dynamic: true, dyn_vaddr: exe_region + 0x4000, mips_got: None, nsect: 2 };
+    let mut exe = Image { combo, etype: 2, entry: exe_region, segs: exe_segs, symtab: exe_exports.clone(), dynsym: exe_dyn.clone(), pltrel: Vec::new(), dynrel: Vec::new(), needed: vec!["libx.so".into()], dynamic: true, dyn_vaddr: exe_region + 0x4000, mips_got: None, nsect: 2 };
     let mut lib = Image { combo, etype: 3, entry: 0, segs: lib_segs, symtab: lib_dyn.clone(), dynsym: lib_all.clone(), pltrel: Vec::new(), dynrel: Vec::new(), needed: Vec::new(), dynamic: true, dyn_vaddr: lib_region + 0x4000, mips_got: None, nsect: 2 };
     if mips {
+        // every dynamic symbol has a global GOT entry (written by mode_link from the tables)
         let lg = rng.range(2, 3) as u32;
         exe.mips_got = Some(MipsGot { local_gotno: lg, gotsym: 1 });
         lib.mips_got = Some(MipsGot { local_gotno: lg, gotsym: 1 });
     } else {
-        // slots in the data segment (4-byte words, distinct)
+        // the executable refers to every library symbol through every symbolic relocation the
+        // linker implements: R_386_32 (1), R_386_GLOB_DAT (6), R_386_JMP_SLOT (7); one 4-byte
+        // slot each in the data segment
         let data = exe.segs[1].vaddr;
         let mut slot = 0u64;
         for (i, s) in exe_dyn.iter().enumerate() {
             if s.shndx != 0 {
                 continue;
             }
-            let kind = rng.below(3);
-            let r = Rel { off: data + 4 * slot, sym: (i + 1) as u32, typ: match kind { 0 => 7, 1 => 6, _ => 1 } };
-            slot += 1;
-            relocs.push((0, r.off, s.name.clone()));
-            if kind == 0 { exe.pltrel.push(r) } else { exe.dynrel.push(r) }
+            for typ in [1u32, 6, 7] {
+                let r = Rel { off: data + 4 * slot, sym: (i + 1) as u32, typ };
+                slot += 1;
+                relocs.push((0, r.off, s.name.clone()));
+                if typ == 7 { exe.pltrel.push(r) } else { exe.dynrel.push(r) }
+            }
         }
-        let ldata = lib.segs[1].vaddr;
-        let r = Rel { off: ldata + 4 * rng.below(3), sym: lib_all.len() as u32, typ: 6 };
-        relocs.push((1, r.off, "e0".into()));
-        lib.dynrel.push(r);
-        if rng.bool() {
-            // the library's own export through its GOT
-            let r = Rel { off: ldata + 12, sym: 1, typ: 6 };
-            relocs.push((1, r.off, lib_all[0].name.clone()));
+        assert!(4 * slot <= exe.segs[1].filesz);
+        // the library refers to every export of the executable, and to two of its own
+        let ldata = lib.segs[1].vaddr + 32;
+        let mut slot = 0u64;
+        for (i, s) in lib_all.iter().enumerate() {
+            let own = s.shndx != 0;
+            if own && !rng.chance(1, 3) {
+                continue;
+            }
+            let r = Rel { off: ldata + 4 * slot, sym: (i + 1) as u32, typ: if rng.bool() { 6 } else { 1 } };
+            slot += 1;
+            relocs.push((1, r.off, s.name.clone()));
             lib.dynrel.push(r);
         }
+        assert!(32 + 4 * slot <= lib.segs[1].filesz);
     }
     (vec![LinkObj { name: "exe".into(), img: exe }, LinkObj { name: "libx.so".into(), img: lib }], relocs)
 }
